@@ -95,6 +95,11 @@ def same_item(m_new, m_old, key):
     return m_new[key] == m_old[key]
 
 
+def env(name):
+    """a value of the harness environment (set by the contract's setup), e.g. the gateway an OTA object belongs to"""
+    raise RuntimeError("env() is only meaningful inside the engine")
+
+
 def is_prefix(a, b):
     """sequence a is a prefix of sequence b"""
     return list(b[: len(a)]) == list(a)
@@ -133,6 +138,7 @@ def install_vocabulary(it):
     it.models[id(forall3)] = ModelFn("forall3", lambda it2, a, k: m_forall_n(it2, a[0], list(a[1:-1]), a[-1]))
     it.models[id(same_dict)] = ModelFn("same_dict", m_same_dict)
     it.models[id(frame_except)] = ModelFn("frame_except", m_frame_except)
+    it.models[id(env)] = ModelFn("env", lambda it2, a, k: it2.env[a[0]])
     it.models[id(is_prefix)] = ModelFn("is_prefix", lambda it2, a, k: ops.mk("bool", z3.PrefixOf(ops._seq_term(a[0]), ops._seq_term(a[1]))))
     it.models[id(same_item)] = ModelFn("same_item", m_same_item)
     from .core import PYVAL
